@@ -117,6 +117,7 @@ def gen_knobs(rng, prop, profile):
         "evict_on_startup": rng.random() < 0.15,
         "val_style": wchoice(rng, [(60, "bool"), (20, "numpy"), (20, "int")]),
         "relative_path": rng.random() < 0.12,
+        "tmp_other_device": rng.random() < 0.5,  # is the system temp directory on another file system?
         "tilde_path": rng.random() < 0.06,
         "ret_style": wchoice(rng, [(75, "true"), (25, "none")]),
         # POSIX TZ strings need no tz database: XXX+7 = seven hours west of UTC, XXX-5:30 = India
